@@ -264,6 +264,10 @@ pub fn run(ctx: &Ctx, rep: &mut Report) {
             ("merge-second", vec!["merge", "good.skf", "x.skf", "-o", "m"]),
             ("delete", vec!["delete", "-s", "x.skf", "s1"]),
             ("weed", vec!["weed", "x.skf", "w.fa", "--min-freq", "0"]),
+            ("weed-nothing-to-do", vec!["weed", "x.skf", "--min-freq", "0"]),
+            ("weed-nothing-to-do-o", vec!["weed", "x.skf", "--min-freq", "0", "-o", "copy.skf"]),
+            ("weed-filter-only", vec!["weed", "x.skf"]),
+            ("delete-o", vec!["delete", "-s", "x.skf", "-o", "del_out", "s1"]),
             ("lo", vec!["lo", "x.skf", "lo_out"]),
         ];
         // a good file with other sample names for the merge commands
@@ -286,6 +290,15 @@ pub fn run(ctx: &Ctx, rep: &mut Report) {
                 if !accepted {
                     if o.code == 0 {
                         rep.violate(format!("cli {name} on {fault}"), format!("ska {name} exits 0 on a file the loader rejects ({fault})"), json!({"cli": name, "fault": fault}));
+                    }
+                    for outf in ["copy.skf", "del_out.skf", "m.skf"] {
+                        let pth = format!("{dir}/{outf}");
+                        if std::path::Path::new(&pth).exists() {
+                            if FileState::read(&pth).is_ok() && o.code == 0 {
+                                rep.violate(format!("cli {name} writes output from rejected file {fault}"), format!("ska {name} wrote {outf} from a file the loader rejects ({fault})"), json!({"cli": name, "fault": fault}));
+                            }
+                            let _ = std::fs::remove_file(&pth);
+                        }
                     }
                     if after != img {
                         rep.violate(format!("cli {name} touches rejected file {fault}"), format!("ska {name} modified a file it rejected ({fault})"), json!({"cli": name, "fault": fault}));
